@@ -77,18 +77,84 @@ theorem removed_exactly (i : Input) (f : String) :
 def exInput : Input :=
   ⟨[⟨"foo-1.tar.gz", 10, 5⟩, ⟨"foo-bar-1.tar.gz", 10, 5⟩, ⟨"foo-0.9.tar.gz", 10, 5⟩, ⟨"big.iso", 10, 5000⟩],
    ["foo-1.tar.gz", "foo-bar-1.tar.gz", "foo-0.9.tar.gz"], [],
-   [⟨["foo-1.tar.gz"], false, true, false⟩, ⟨["foo-bar-1.tar.gz"], false, false, false⟩],
+   [⟨["foo-1.tar.gz"], false, true, false, false⟩, ⟨["foo-bar-1.tar.gz"], false, false, false, false⟩],
    ⟨false, true, false, true, false, none, some 100⟩⟩
 
 /-- `pclean dist cat/foo --exists --size 100B`: the stale `foo-0.9.tar.gz` goes, the distfile of the existing
 ebuild `cat/foo-bar` — which the guessed pattern selects — stays (this is the defect fixed in /repo) -/
 example : needed exInput "foo-bar-1.tar.gz" ∧ "foo-0.9.tar.gz" ∈ names exInput ∧ ¬ needed exInput "foo-0.9.tar.gz" := by
-  refine ⟨Or.inr (Or.inl ⟨rfl, ⟨["foo-bar-1.tar.gz"], false, false, false⟩, by simp [exInput], by simp⟩), by simp [exInput, names], ?_⟩
+  refine ⟨Or.inr (Or.inl ⟨rfl, ⟨["foo-bar-1.tar.gz"], false, false, false, false⟩, by simp [exInput], by simp⟩), by simp [exInput, names], ?_⟩
   rintro (⟨h, _⟩ | ⟨_, p, hp, hf⟩ | ⟨h, _⟩ | ⟨h, _⟩)
   · simp [exInput] at h
   · simp [exInput] at hp
     rcases hp with rfl | rfl <;> simp at hf
   · simp [exInput] at h
   · simp [exInput] at h
+
+/-! ## Repositories containing packages whose metadata cannot be read (unparsable SRC_URI)
+
+`run` / `leftAfter` are the whole command: argument validation, which raises `MetadataException` as soon as one of
+its loops evaluates `.distfiles` of such a package (`aborts`), followed by `_remove`. -/
+
+/-- **a needed file survives the command, whatever the repository contains**: also when some packages have unreadable
+metadata, no distfile needed by an installed / existing / fetch-restricted / excluded package is gone afterwards —
+the run either stops before removing anything or protects every package, it never carries on with part of them. -/
+theorem needed_files_survive (i : Input) (f : String) (hf : f ∈ names i) (h : needed i f) : f ∈ leftAfter i := by
+  unfold leftAfter run
+  cases ha : aborts i with
+  | true => simpa using hf
+  | false =>
+    simp only [Bool.false_eq_true, if_false]
+    exact needed_files_left i f hf h
+
+/-- whatever is removed was selected by the targets and passes the filters — also in such repositories -/
+theorem run_removes_only_selected (i : Input) (r : List String) (hr : run i = some r) (f : String) (hf : f ∈ r) :
+    selectedByTargets i f ∧ passesFilters i f := by
+  unfold run at hr
+  cases ha : aborts i with
+  | true => simp [ha] at hr
+  | false =>
+    simp only [ha, Bool.false_eq_true, if_false, Option.some.injEq] at hr
+    subst hr
+    exact removed_subset_targets i f hf
+
+/-- **a package with unreadable metadata that the run has to look at stops the run before anything is removed** -/
+theorem unreadable_metadata_removes_nothing (i : Input) (p : RepoPkg) (hp : p ∈ i.repo) (hb : p.broken = true)
+    (ht : touched i p = true) : run i = none ∧ leftAfter i = names i := by
+  have ha : aborts i = true := by
+    unfold aborts
+    rw [List.any_eq_true]
+    exact ⟨p, hp, by simp [hb, ht]⟩
+  unfold leftAfter run
+  simp [ha]
+
+/-- **… and when the run goes through, the distfiles of such packages were never read**: the outcome is that of the same
+scenario with those lists blanked (so the needed sets of the packages that *can* be read are complete, not cut short
+at the first unreadable one). -/
+theorem unreadable_distfiles_never_read (i : Input) (r : List String) (hr : run i = some r) :
+    run (visible i) = some r ∨ aborts (visible i) = true := by
+  unfold run at hr
+  cases ha : aborts i with
+  | true => simp [ha] at hr
+  | false =>
+    simp only [ha, Bool.false_eq_true, if_false, Option.some.injEq] at hr
+    cases hv : aborts (visible i) with
+    | true => exact Or.inr rfl
+    | false =>
+      left
+      unfold run
+      simp only [hv, Bool.false_eq_true, if_false]
+      rw [removed_visible i ha, hr]
+
+def exBroken : Input :=
+  ⟨[⟨"other-1.tar.gz", 10, 5⟩, ⟨"keepme-1.tar.gz", 10, 5⟩, ⟨"stale-0.1.tar.gz", 10, 5⟩], [], [],
+   [⟨["other-1.tar.gz"], false, false, false, false⟩, ⟨["abroken-1.tar.gz"], false, false, false, true⟩,
+    ⟨["keepme-1.tar.gz"], false, false, false, false⟩],
+   ⟨false, true, false, false, false, none, none⟩⟩
+
+/-- `pclean dist --exists` on a repository with one unparsable ebuild: the run stops, all three files are left;
+without `--exists` nobody looks at the package and the run goes through -/
+example : run exBroken = none ∧ leftAfter exBroken = ["other-1.tar.gz", "keepme-1.tar.gz", "stale-0.1.tar.gz"] := by decide
+example : (run { exBroken with opts := ⟨false, false, false, false, false, none, none⟩ }).isSome = true := by decide
 
 end Pkgcore.C46
